@@ -420,6 +420,7 @@ def run(ctx):
     common.standard_proof_stage(ctx, "C10", ["Properties/C10.vo"])
     if rc != 0:
         return
+    torch.set_num_threads(1)
     rng = ctx.rng
     tgen = torch.Generator().manual_seed(rng.randrange(2 ** 31))
     torch.manual_seed(rng.randrange(2 ** 31))
@@ -546,6 +547,7 @@ def replay(ctx, path):
     rp = json.loads(open(path).read())
     print("replay:", rp.get("what"))
     print("case:", json.dumps(rp.get("case"), default=str)[:2000])
+    # histories are regenerated from the seeded stream (torch generator + ctx.rng): rerun the same tier
     run(ctx)
 
 
